@@ -135,6 +135,57 @@ def plan(prop, tier):
             P = dict(base, jobs=jobs, states_key="texts", transitions_key="texts", nontrivial_key="texts",
                      rule="union of the engines under ASan + UBSan(signed-integer-overflow, shift, divide-by-zero, null, bounds) + watchdog: all byte strings up to the length and all 1-edit mutants/prefixes of the seed texts as descriptions (exactly sized heap blocks), symbol names of 1..1000 characters through every message-producing error with strlen(message) <= 200, 300-symbol grammars with dense and sparse codes, a slice of the callback-level description product, API histories, the parse spaces of the gram engine incl. recovery, all-parses, cost pruning and the default allocator; any sanitizer report, signal, exit() or timeout is a violation with the case attached",
                      bounds={"byte_string_length": 4 if q else 5}, require={"texts": 100000, "parses": 100000, "definitions": 10000, "long_name_cases": 100})
+    elif prop == "C16":
+        pairs = [("gram-q", ["gram", "--family", "q", "--props", "C01,C02,C03,C05,C09", "--n", "4" if q else "5", "--tm", "u0", "--digest"], NPROC),
+                 ("gram-q-vary", ["gram", "--family", "q", "--props", "C02,C03,C04,C13", "--n", "3" if q else "4", "--tm", "vary", "--la", "1", "--cost", "0,1", "--rec", "1", "--cms", "3", "--ams", "0,1", "--digest"], NPROC),
+                 ("gram-qe", ["gram", "--family", "qe", "--props", "C06,C07,C08", "--n", "4", "--la", "0,1,2", "--one", "0,1", "--cost", "0", "--rec", "0,1", "--match", "1,3", "--digest"], NPROC),
+                 ("gram-cur", ["gram", "--family", "cur", "--props", "C01,C03,C07", "--n", "5" if q else "6", "--cost", "0", "--digest"], NPROC),
+                 ("def", ["def", "--sample", "7" if q else "1"], NPROC),
+                 ("txt-mut", ["txt", "--mode", "mutations", "--inputs", "1", "--prop", "C11"], NPROC),
+                 ("txt-printed", ["txt", "--mode", "printed", "--family", "mini", "--tm", "vary", "--inputs", "2", "--prop", "C11"], NPROC),
+                 ("hist", ["hist", "--slots", "2", "--full", "5", "--bfs", "0"], 1)]
+        jobs = []
+        for name, args, sh in pairs:
+            jobs.append(Job(name + "-c", "c", args, sh)); jobs.append(Job(name + "-cxx", "cxx", args, sh))
+        jobs += [Job("cont-hist-cxx-asan", "cxx-asan", ["hist", "--slots", "2", "--full", "4", "--bfs", "0"], 1),
+                 gram("C13", "gram-cur-cxx-asan", "cxx-asan", "cur", 4, ["--fresh", "--la", "1", "--ams", "0,2"], shards=NPROC)]
+
+        def post(merged, viols):
+            pj = merged["per_job"]
+            for name, args, sh in pairs:
+                a, b = pj.get(name + "-c", {}).get("counters", {}), pj.get(name + "-cxx", {}).get("counters", {})
+                keys = sorted(set(k for k in list(a) + list(b) if k.startswith("dg:")))
+                merged["counters"]["c16_digest_groups_compared"] = merged["counters"].get("c16_digest_groups_compared", 0) + len(keys)
+                bad = [k for k in keys if a.get(k) != b.get(k)]
+                for k in bad[:5]:
+                    gi = k[3:]
+                    v = {"property": "C16", "kind": "c-vs-cxx-observations-differ", "engine": args[0], "job": name + "-cxx", "variant": "cxx", "job_args": args,
+                         "case": ("family=%s gi=%s" % (args[2], gi)) if args[0] == "gram" else "digest group " + gi, "grammar": "",
+                         "detail": "the digest of all observations (return codes, messages, syntax_error calls, ambiguity flags, denoted trees, allocation counts) of group %s differs between the C library and the C++ class (job %s)" % (gi, name)}
+                    viols.append(v)
+                for k in ("parses", "definitions", "texts", "transitions"):
+                    if a.get(k, 0) != b.get(k, 0):
+                        viols.append({"property": "C16", "kind": "c-vs-cxx-coverage-differs", "engine": args[0], "job": name, "case": name, "grammar": "", "detail": "%s: %s in C, %s in C++" % (k, a.get(k), b.get(k))})
+            # any violation of another property seen only through the C++ binding is a C16 violation
+            for v in merged["violations"]:
+                if str(v.get("job", "")).endswith("-cxx") or str(v.get("variant", "")).startswith("cxx"):
+                    v["detail"] = "[seen through class yaep; property %s kind %s] " % (v.get("property"), v.get("kind")) + v.get("detail", "")
+                    v["property"] = "C16"
+                    viols.append(v)
+        P = dict(base, jobs=jobs, post=post, known_all=True, states_key="inputs", transitions_key="parses", nontrivial_key="c16_digest_groups_compared",
+                 rule="every engine is built twice: over the C functions (libyaep) and over class yaep with the separately written C++ containers (libyaep++); both run the same deterministic case spaces (grammar families incl. recovery and cost pruning, callback-level descriptions, description texts and their mutants, API histories with yaep::free_tree) and emit per-group digests of all observations (codes, messages, callbacks, flags, denoted trees, allocation/free counts); the digests must be equal group by group; the C++ runs are also judged by the same reference oracles, and run under ASan on a slice; distinct_nontrivial = digest groups compared",
+                 bounds={"note": "quick spaces of C01-C15"}, require={"parses": 100000, "c16_digest_groups_compared": 500})
+    elif prop == "C18":
+        jobs = [Job("scale", "c-perf", ["scale", "--jmax", "5" if q else "9"], 12)]
+        P = dict(base, level="exploration", jobs=jobs, states_key="parses", transitions_key="parses", nontrivial_key="doublings",
+                 rule="complete finite grid: 4 deterministic left-recursive grammar/input families (list, flat sums, nested arithmetic, nested statement list) x lengths 1000*2^j, j = 0..5 (thorough 0..9 = 512k tokens) x lookahead 0,1,2; measured per parse: bytes and requests asked from the allocator (YAEP_VERIF hook), hash table searches and collisions (exported counters), unique sets / set cores / goto-cache successes (level-1 statistics); oracle: frozen doubling-ratio limits and per-token caps calibrated with head-room on the unchanged tree, constant number of set cores, at most linear number of sets, >= 20 % of the transitions from the goto cache on the nesting inputs; distinct_nontrivial = length doublings compared",
+                 bounds={"max_tokens": 32000 if q else 512000, "lookahead": [0, 1, 2]}, require={"parses": 48, "doublings": 40},
+                 explanation="exhaustive over the stated grid; says nothing about n -> infinity; the ANSI C grammar on test.i is not part of the grid (needs the test suite's flex scanner)")
+    elif prop == "C17":
+        jobs = [Job("fault", "c-asan", ["fault", "--known-file", os.path.join(os.path.dirname(os.path.dirname(os.path.abspath(__file__))), "known_c17_cases.txt")], NPROC)]
+        P = dict(base, level="fault_enumeration", jobs=jobs, states_key="fault_runs", transitions_key="fault_runs", nontrivial_key="faults_fired",
+                 rule="20 scenarios (create; definitions by text and by callbacks, good and defective; parses covering lookahead 0/1/2, recovery, all parses, cost pruning with and without parse_free, sparse codes, invalid token, empty input); the fault-free run of each scenario counts its N allocation requests (YAEP_VERIF hook in allocate.c), then for every k in 1..N a forked child makes exactly request k fail and checks: NULL / YAEP_NO_MEMORY, error code recorded, no sanitizer report or exit, the object can be freed, a bystander object defined before still parses to the same tree; distinct_nontrivial = runs in which the fault fired",
+                 bounds={"scenarios": 20, "faults_per_scenario": "all k up to the fault-free request count"}, require={"fault_runs": 500, "faults_fired": 500})
     elif prop == "C10":
         jobs = [Job("def", "c", ["def"] + ([] if q else ["--thorough"]), NPROC), Job("def-asan", "c-asan", ["def", "--sample", "97"], NPROC)]
         P = dict(base, jobs=jobs, states_key="definitions", transitions_key="definitions", nontrivial_key="nontrivial_rejections",
